@@ -295,3 +295,16 @@ def make_probe_rect(A, b, types, groups=None, shape=None):
             return d
 
     return ProbeRect()
+
+
+def seq_with_ca(cubes, ca, key, **kw):
+    """NDCubeSequence(cubes, common_axis=ca); every fourth one (by key) is given its common axis in the negative
+    spelling (ca - ndim).  A constructor that refuses that spelling is fine too: then the plain one is used."""
+    import zlib
+    from ndcube import NDCubeSequence
+    if ca is not None and zlib.crc32(("ca" + str(key)).encode()) % 4 == 0:
+        try:
+            return NDCubeSequence(cubes, common_axis=ca - cubes[0].data.ndim, **kw)
+        except (ValueError, IndexError, TypeError):
+            pass
+    return NDCubeSequence(cubes, common_axis=ca, **kw)
